@@ -244,8 +244,10 @@ func (d *defaultValidator) validateDefaultValueSchemaAgainstSchema(path, in stri
 	s := d.SpecValidator
 
 	if schema.Default != nil {
+		// building the validator expands a $ref schema in place, which replaces its Default: read the value first
+		value := schema.Default
 		res.Merge(
-			newSchemaValidator(schema, s.spec.Spec(), path+".default", s.KnownFormats, d.schemaOptions).Validate(schema.Default),
+			newSchemaValidator(schema, s.spec.Spec(), path+".default", s.KnownFormats, d.schemaOptions).Validate(value),
 		)
 	}
 	if schema.Items != nil {
